@@ -1,10 +1,12 @@
 #!/bin/bash
 # Runs the repository's own test suite (guard off: no tag, no overlay) and compares with BASELINE.json stable_pass.
-cd /repo
+# usage: scripts/baseline.sh [out.json] [repo dir]
+repo="${2:-/repo}"
+cd "$repo"
 export GOFLAGS=-mod=mod GOPROXY=off GOSUMDB=off GOTOOLCHAIN=local
 out=${1:-/verif/.scratch/baseline.json}
 mkdir -p $(dirname $out)
-go test -mod=mod -json -vet=off -count=1 -timeout 25m ./... > $out 2>/dev/null
+go test -mod=mod -json -vet=off -count=1 -timeout 25m $(go list ./... | grep -v "/OUT") > $out 2>/dev/null
 python3 - "$out" <<'PY'
 import json,sys
 res={}
